@@ -284,6 +284,15 @@ class Handler:
                     for ck2, cb2 in self.bodies.items():
                         if cb2.id == s["r"]["def"]:
                             out.extend(self._nested_events(ck2, cb2, depth + 1))
+                # stores into the actor made by the nested body (`self.permit = Some(..)` inside an async helper)
+                if s["k"] == "assign" and cb.j.get("reowned_from"):
+                    p_ = s["p"]
+                    if place_field(p_, "permit") and "OwnedSemaphorePermit" in p_.get("ty", ""):
+                        out.append(Ev("permit_store", "", cb, ck, bi, s["sp"]))
+                    elif place_is_state_kind(p_) and p_.get("ty", "").startswith(SK) and s["r"]["k"] == "agg" and s["r"].get("adt") == SK:
+                        out.append(Ev("set_state", s["r"]["variant"], cb, ck, bi, s["sp"]))
+                    elif any(place_field(p_, f) for f in ("channel_senders", "channel_receivers", "consts", "tmp_dir_path", "client_builder", "concurrency")) and not any(e == "*" for e in p_["pr"][-1:]):
+                        out.append(Ev("mutate", [e["n"] for e in p_["pr"] if isinstance(e, dict) and e.get("n")][-1], cb, ck, bi, s["sp"]))
             t = blk["t"]
             if t["k"] == "call":
                 out.extend(self._call_events(ck, cb, bi, t))
